@@ -2,6 +2,7 @@ package main
 
 import (
 	"fmt"
+	"go/token"
 	"go/types"
 	"strings"
 
@@ -149,13 +150,23 @@ func (x *Run) heldLockKey(fn *ssa.Function, args []Val) string {
 // (and its closures) must be a case of a select with another case or default:
 // a bare send blocks for ever when the receiver is gone, so whatever the
 // sender holds (a session entry, a goroutine) is never released.
-func (x *Run) checkNoBlock(fn *ssa.Function) {
+//
+// With the option "recv" the same holds for receives: a bare receive waits for
+// ever when nobody sends or closes, so a waiter that must notice some other
+// event (its own listener being closed) has to watch for it in the same select.
+func (x *Run) checkNoBlock(fn *ssa.Function, recv bool) {
 	var walk func(f *ssa.Function)
 	walk = func(f *ssa.Function) {
 		n := 0
+		nr := 0
 		for _, b := range f.Blocks {
 			for _, ins := range b.Instrs {
 				switch i := ins.(type) {
+				case *ssa.UnOp:
+					if recv && i.Op == token.ARROW {
+						nr++
+						x.obligeStatic(newState(), fmt.Sprintf("bounded-block.%s.recv#%d", x.fnShort(f), nr), "bounded-block", false, i.Pos(), "bare blocking channel receive")
+					}
 				case *ssa.Send:
 					n++
 					x.obligeStatic(newState(), fmt.Sprintf("bounded-block.%s.send#%d", x.fnShort(f), n), "bounded-block", false, i.Pos(), "bare blocking channel send")
@@ -165,6 +176,10 @@ func (x *Run) checkNoBlock(fn *ssa.Function) {
 							n++
 							ok := len(i.States) > 1 || !i.Blocking
 							x.obligeStatic(newState(), fmt.Sprintf("bounded-block.%s.send#%d", x.fnShort(f), n), "bounded-block", ok, i.Pos(), "send inside select")
+						} else if recv {
+							nr++
+							ok := len(i.States) > 1 || !i.Blocking
+							x.obligeStatic(newState(), fmt.Sprintf("bounded-block.%s.recv#%d", x.fnShort(f), nr), "bounded-block", ok, i.Pos(), "receive inside select")
 						}
 					}
 				}
